@@ -473,6 +473,12 @@ enum Dev {
     AckShortThenSilent,
     /// half a length prefix, then nothing
     HalfPrefixThenSilent,
+    /// a frame of length zero where a handshake message is due, followed by an otherwise faultless handshake
+    EmptyFrameBeforeStatus,
+    EmptyFrameBeforeChallenge,
+    EmptyFrameBeforeAck,
+    /// nothing but frames of length zero, 20 ms apart, for longer than the watchdog
+    EmptyFrameFlood,
 }
 
 const DEVS: &[Dev] = &[
@@ -480,12 +486,27 @@ const DEVS: &[Dev] = &[
     Dev::ChallengeTruncated, Dev::ChallengeOldFormat, Dev::ChallengeOversized, Dev::SilentAfterStatus, Dev::CloseAfterStatus, Dev::AckBeforeChallenge,
     Dev::WrongDigest, Dev::DigestForOtherChallenge, Dev::DigestOfOwnChallenge, Dev::SilentAfterReply, Dev::CloseAfterReply, Dev::AckTruncated, Dev::Dribble, Dev::TwoStatuses,
     Dev::StatusShortThenSilent, Dev::ChallengeShortThenSilent, Dev::AckShortThenSilent, Dev::HalfPrefixThenSilent,
+    Dev::EmptyFrameBeforeStatus, Dev::EmptyFrameBeforeChallenge, Dev::EmptyFrameBeforeAck, Dev::EmptyFrameFlood,
 ];
 
 /// Returns the instant the peer went silent (if the script has such a point).
 async fn play(peer: &mut Peer, dev: Dev, silent: std::sync::Arc<std::sync::Mutex<Option<Instant>>>) -> Option<Instant> {
     use Dev::*;
     let _ = peer.recv_name().await;
+    if dev == EmptyFrameBeforeStatus {
+        let _ = peer.write_frame2(&[]).await;
+    }
+    if dev == EmptyFrameFlood {
+        let t = Instant::now();
+        *silent.lock().unwrap() = Some(t);
+        while t.elapsed() < Duration::from_secs(20) {
+            if peer.write_frame2(&[]).await.is_err() {
+                break;
+            }
+            tokio::time::sleep(Duration::from_millis(20)).await;
+        }
+        return Some(t);
+    }
     match dev {
         SilentAfterName => {
             let t = Instant::now();
@@ -583,6 +604,9 @@ async fn play(peer: &mut Peer, dev: Dev, silent: std::sync::Arc<std::sync::Mutex
                 return None;
             }
             _ => {
+                if dev == EmptyFrameBeforeChallenge {
+                    let _ = peer.write_frame2(&[]).await;
+                }
                 let ch = peer.challenge_body();
                 let _ = peer.write_frame2(&ch).await;
             }
@@ -634,6 +658,9 @@ async fn play(peer: &mut Peer, dev: Dev, silent: std::sync::Arc<std::sync::Mutex
             None
         }
         _ => {
+            if dev == EmptyFrameBeforeAck {
+                let _ = peer.write_frame2(&[]).await;
+            }
             let d = challenge_digest(&peer.cookie, client_challenge);
             let _ = peer.write_frame2(&Peer::ack_body(&d)).await;
             // stay around so that the client can finish
@@ -771,7 +798,7 @@ async fn connect_part(ctx: &Ctx, rng: &mut Rng) {
 }
 
 pub fn run(ctx: &Ctx) {
-    ctx.rule("monitor 1: every sequence of length <= 3 (quick) / 4 (thorough) over 23 symbolic handshake-API actions (valid / stale-epoch / wrong / truncated / wrong-tag arguments) plus random sequences of length 5..12, five configurations (empty/long/non-ASCII cookies, names of 1..256 bytes, all-ones/zero/random flags, challenge 0 and 2^32-1), checked online against a shadow of the handshake epoch; monitor 2: Connection::connect against a scripted peer over loopback + fake EPMD for 21 peer behaviours x flag sets; evaluations = API calls / connect attempts judged; distinct = distinct action sequences (hash) and (deviation, flag set) pairs");
+    ctx.rule("monitor 1: every sequence of length <= 3 (quick) / 4 (thorough) over 23 symbolic handshake-API actions (valid / stale-epoch / wrong / truncated / wrong-tag arguments) plus random sequences of length 5..12, five configurations (empty/long/non-ASCII cookies, names of 1..256 bytes, all-ones/zero/random flags, challenge 0 and 2^32-1), checked online against a shadow of the handshake epoch; monitor 2: Connection::connect against a scripted peer over loopback + fake EPMD for 29 peer behaviours (silence at and inside every step, truncated / oversized / old-format messages, 24 digest corruptions, garbage statuses, frames of length zero before each step and as a flood) x flag sets; evaluations = API calls / connect attempts judged; distinct = distinct action sequences (hash) and (deviation, flag set) pairs");
     ctx.assume("digest of a non-ASCII cookie is taken over its UTF-8 bytes (the property does not fix the byte encoding); timing: a silent peer must be noticed within timeout + max(1 s, timeout), measured from the peer's silence; later but before the 15 s watchdog = inconclusive");
     if !selfcheck() {
         ctx.inconclusive("MD5 self-check (RFC 1321 vectors) failed: harness broken");
